@@ -265,6 +265,10 @@ class Prop(common.PropertyCheck):
                                            mef={'FL1': '200, 700, 2500, 9000, 32000', 'FL2': '900, 5000, 26000, 70000', 'FL3': '100, 300, 900, 2700, 8100, 24300'}),
                         excelgen.beads_row('F6', 'FC001', 'beads1.fcs', channels=('FL1', 'FL2', 'FL3'),
                                            mef={'FL1': '200, 700, 2500, 9000, 32000', 'FL2': '900, 5000, 26000, 70000, 80000, 90000', 'FL3': '100, 300, 900, 2700'}),
+                        # the channel with another number of entries holds 'None' (unknown) entries only: still another number of entries
+                        excelgen.beads_row('F7', 'FC001', 'beads1.fcs', channels=('FL1', 'FL3'), mef={'FL1': '200, 700, 2500, 9000, 32000', 'FL3': 'None, None, None'}),
+                        excelgen.beads_row('F8', 'FC001', 'beads1.fcs', channels=('FL1', 'FL2'), clustering=('FL1',),
+                                           mef={'FL1': 'None, 700, 2500, 9000, 32000', 'FL2': 'None, None, None, None, None, None'}),
                         excelgen.beads_row('G2', 'FC001', 'beads1.fcs', channels=('FL1',))]
                 bt = excelgen.table(rows)
                 np.random.seed(3)
@@ -426,8 +430,8 @@ class Prop(common.PropertyCheck):
                     return 'second analysis: healthy row %s lost its statistics' % r['id']
             return None
         if case['k'] == 'beads':
-            want = ['ok', 'file_not_found', 'too_few_events', 'gate_fraction', 'unequal_mef', 'unequal_mef', 'unequal_mef', 'ok']
-            if impl['ids'] != ['G1', 'F1', 'F2', 'F3', 'F4', 'F5', 'F6', 'G2']:
+            want = ['ok', 'file_not_found', 'too_few_events', 'gate_fraction', 'unequal_mef', 'unequal_mef', 'unequal_mef', 'unequal_mef', 'unequal_mef', 'ok']
+            if impl['ids'] != ['G1', 'F1', 'F2', 'F3', 'F4', 'F5', 'F6', 'F7', 'F8', 'G2']:
                 return 'bead results are not keyed by row identifier in table order: %s' % impl['ids']
             for rid, k, w, note, nev, fn in zip(impl['ids'], impl['kinds'], want, impl['notes'], impl['nev'], impl['fx_none']):
                 if w == 'ok':
